@@ -150,6 +150,8 @@ class XUniverse(Universe):
                 return "(" + " * ".join(self.coq_type(x) for x in ann.slice.elts) + ")"
             if ann.value.id == "Iterator":
                 return f"(iterator {self.coq_type(ann.slice)})"
+            if ann.value.id == "dict" and isinstance(ann.slice, ast.Tuple) and len(ann.slice.elts) == 2:
+                return f"(pydict {self.coq_type(ann.slice.elts[0])} {self.coq_type(ann.slice.elts[1])})"
         return super().coq_type(ann)
 
     def qualified(self, a: ast.Attribute) -> str:
@@ -160,6 +162,9 @@ class XUniverse(Universe):
         ty = ty.strip()
         if ty.startswith("(pyset "):
             raise Unsupported(ast.Constant(ty), "== on sets is not translated")
+        parts = split_product(ty)
+        if parts and len(parts) == 2:
+            return f"(pair_eqb {self.eqb_name(parts[0])} {self.eqb_name(parts[1])})"
         return super().eqb_name(ty)
 
     def is_record(self, ind: str) -> bool:
@@ -173,6 +178,21 @@ class XUniverse(Universe):
             pat = " ".join("x_" if j == i else "_" for j in range(len(ct.fields)))
             out.append(f"Definition {ind}_{fn} (r_ : {ind}) : {ty} := match r_ with {ct.coq} {pat} => x_ end.")
         return "\n".join(out) + "\n"
+
+
+def dict_of(ty: str) -> tuple[str, str] | None:
+    """(key type, value type) of "(pydict K V)"."""
+    if not ty.startswith("(pydict "):
+        return None
+    inner, depth = ty[len("(pydict "):-1], 0
+    for i, ch in enumerate(inner):
+        if ch == "(":
+            depth += 1
+        elif ch == ")":
+            depth -= 1
+        elif ch == " " and depth == 0:
+            return inner[:i], inner[i + 1:]
+    return None
 
 
 def elt_of(ty: str) -> str | None:
@@ -211,6 +231,7 @@ class XScope(Scope):
         self.fuel = False  # a variable `fuel` is in scope
         self.entry_key: str | None = None  # variable holding the counter on entry of the enclosing function / loop body
         self.entry_used = [False]
+        self.own_dicts: set[str] = set()  # local dicts made by a display / .copy(): item assignment allowed
         self.fallthrough = None  # text producer used when a statement list ends without return (loop bodies)
         self.in_loop = False
 
@@ -227,6 +248,7 @@ class XScope(Scope):
         s = XScope(self.tr, self.self_ctor, self.self_type, ret, self.self_name, mode, None)
         s.types = dict(self.types)
         s.counter = self.counter
+        s.own_dicts = set(self.own_dicts)
         return s
 
     def clone(self, **over):
@@ -237,6 +259,7 @@ class XScope(Scope):
         s.state, s.ret_state, s.fuel = self.state, self.ret_state, self.fuel
         s.entry_key, s.entry_used = self.entry_key, self.entry_used
         s.fallthrough, s.in_loop = self.fallthrough, self.in_loop
+        s.own_dicts = set(self.own_dicts)
         for k, v in over.items():
             setattr(s, k, v)
         return s
@@ -275,6 +298,8 @@ class XTranslator(Translator):
         self.summaries: dict[tuple[str, str], tuple[str, str]] = {}  # (type, idiom) -> (coq function, result type)
         self.oracle: str | None = None  # name of the section variable giving the iteration order of sets
         self.open_group: set[str] = set()  # functions being emitted in open-recursion style (called without fuel)
+        self.oracle_nokey: str | None = None  # oracle for set iteration where no counter is in scope (keyed by the set only)
+        self.inline: dict[str, ast.FunctionDef] = {}  # plain functions expanded at `return f(args)`
 
     @property
     def partial(self):
@@ -305,6 +330,8 @@ class XTranslator(Translator):
         if frm in ("(list _)", "(pyset _)") and (to.startswith("(list ") or to.startswith("(pyset ")):
             return t
         if frm == "(option _)" and to.startswith("(option "):
+            return t
+        if frm == "(pydict _ _)" and to.startswith("(pydict "):
             return t
         return super().coerce(t, frm, to)
 
@@ -342,6 +369,20 @@ class XTranslator(Translator):
 
     def iterable(self, node, sc: XScope) -> tuple[str, str, bool]:
         """(text of a list in iteration order, element type, is a set)."""
+        if isinstance(node, ast.Call) and isinstance(node.func, ast.Attribute) and node.func.attr == "items" \
+                and not node.args and not node.keywords:
+            # a dict iterates in insertion order
+            t, ty = self.expr(node.func.value, sc)
+            kv = dict_of(ty)
+            if kv is None or unknown(ty):
+                raise Unsupported(node, ".items() of a non-dict")
+            return t, f"({kv[0]} * {kv[1]})", False
+        if isinstance(node, ast.Call) and isinstance(node.func, ast.Name) and node.func.id == "enumerate" \
+                and len(node.args) == 1 and not node.keywords and "enumerate" not in sc.types:
+            t, ty = self.expr(node.args[0], sc)
+            if not ty.startswith("(list ") or unknown(ty):
+                raise Unsupported(node, "enumerate() of a non-list")
+            return f"(py_enumerate {t})", f"(Z * {elt_of(ty)})", False
         t, ty = self.expr(node, sc)
         et = elt_of(ty)
         if et is None or unknown(ty):
@@ -350,6 +391,8 @@ class XTranslator(Translator):
 
     def ordered(self, t: str, sc: XScope, node) -> str:
         """A set is iterated in the order given by the oracle."""
+        if not sc.entry_key and self.oracle_nokey:
+            return f"({self.oracle_nokey} {t})"
         if not self.oracle or not sc.entry_key:
             raise Unsupported(node, "iteration over a set (its order is not determined) outside a function that threads the id counter")
         sc.entry_used[0] = True
@@ -404,9 +447,64 @@ class XTranslator(Translator):
             return self.ifexp(e, sc, want)
         if isinstance(e, ast.Compare) and len(e.ops) == 1 and isinstance(e.ops[0], (ast.Is, ast.IsNot)):
             return self.identity_test(e, sc)
+        if isinstance(e, ast.Set):
+            # {x}, {*a, *b}: the elements as a duplicate-free list
+            parts, ety = [], (elt_of(want) if want and elt_of(want) and not unknown(want) else None)
+            for x in e.elts:
+                if isinstance(x, ast.Starred):
+                    t, ty = self.expr(x.value, sc)
+                    if elt_of(ty) is None or unknown(ty):
+                        raise Unsupported(e, "* of a non-collection")
+                    ety = ety or elt_of(ty)
+                    if elt_of(ty) != ety:
+                        raise Unsupported(e, "set display of mixed types")
+                    parts.append(t)
+                else:
+                    t, ty = self.expr(x, sc, want=ety)
+                    ety = ety or ty
+                    parts.append(f"[{self.coerce(t, ty, ety)}]")
+            if len(parts) == 1 and not isinstance(e.elts[0], ast.Starred):
+                return parts[0], f"(pyset {ety})"
+            return f"(set_display {U.eqb_name(ety)} (" + " ++ ".join(parts) + ")%list)", f"(pyset {ety})"
+        if isinstance(e, ast.DictComp):
+            # {k: v for k in <set or list without repetitions>}: one entry per element, in iteration order
+            if len(e.generators) != 1 or e.generators[0].is_async or e.generators[0].ifs \
+                    or not isinstance(e.generators[0].target, ast.Name) \
+                    or not isinstance(e.key, ast.Name) or e.key.id != e.generators[0].target.id:
+                raise Unsupported(e, "dict comprehension other than {k: v for k in s}")
+            g = e.generators[0]
+            src, et, is_set = self.iterable(g.iter, sc)
+            if not is_set:
+                raise Unsupported(e, "dict comprehension over a list (keys may repeat)")
+            src = self.ordered(src, sc, e)
+            inner = sc.clone()
+            inner.pending = []
+            pat = self.pattern(g.target, et, inner, e)
+            v, vt = self.guarded(e.value, inner)
+            return f"(map (fun {pat} => ({pat}, {v})) {src})", f"(pydict {et} {vt})"
+        if isinstance(e, ast.Dict):
+            if any(k is None for k in e.keys):
+                raise Unsupported(e, "dict display with **")
+            kv = dict_of(want) if want else None
+            if not e.keys:
+                return "nil", (want if kv else "(pydict _ _)")
+            items, kt, vt = [], (kv[0] if kv else None), (kv[1] if kv else None)
+            for k, v in zip(e.keys, e.values):
+                a, at = self.expr(k, sc, want=kt)
+                b, bt = self.expr(v, sc, want=vt)
+                kt, vt = kt or at, vt or bt
+                items.append(f"({self.coerce(a, at, kt)}, {self.coerce(b, bt, vt)})")
+            if len(e.keys) > 1:
+                raise Unsupported(e, "dict display with several keys (a repeated key would overwrite)")
+            return "[" + "; ".join(items) + "]", f"(pydict {kt} {vt})"
         if isinstance(e, ast.Compare) and len(e.ops) == 1 and isinstance(e.ops[0], (ast.In, ast.NotIn)):
             x, xt = self.expr(e.left, sc)
             s, st = self.expr(e.comparators[0], sc)
+            if dict_of(st):
+                if dict_of(st)[0] != xt:
+                    raise Unsupported(e, "membership test")
+                t = f"(dict_mem {U.eqb_name(xt)} {x} {s})"
+                return (t if isinstance(e.ops[0], ast.In) else f"(negb {t})"), "bool"
             et = elt_of(st)
             if et is None or et != xt:
                 raise Unsupported(e, "membership test")
@@ -460,6 +558,36 @@ class XTranslator(Translator):
             if len(parts) == 1:
                 return parts[0], "string"
             return "(" + " ++ ".join(parts) + ")", "string"
+        if isinstance(e, ast.Subscript) and not isinstance(e.slice, ast.Slice):
+            x, xt = self.expr(e.value, sc)
+            if dict_of(xt) and not unknown(xt):
+                k, kt = self.expr(e.slice, sc, want=dict_of(xt)[0])
+                self.need(kt, dict_of(xt)[0], e)
+                v = self.add_pending(sc, "opt", "item", f"dict_get {U.eqb_name(kt)} {k} {x}", e)  # KeyError
+                return v, dict_of(xt)[1]
+            if not xt.startswith("(list "):
+                raise Unsupported(e, "subscript of a value that is neither list nor dict")
+            i, it = self.expr(e.slice, sc)
+            self.need(it, "Z", e)
+            v = self.add_pending(sc, "opt", "item", f"py_getitem {x} {i}", e)
+            return v, elt_of(xt)
+        if isinstance(e, ast.List) and any(isinstance(x, ast.Starred) for x in e.elts):
+            # [*a, x, *b]
+            parts, ety = [], (elt_of(want) if want and elt_of(want) else None)
+            for x in e.elts:
+                if isinstance(x, ast.Starred):
+                    t, ty = self.expr(x.value, sc, want=f"(list {ety})" if ety else None)
+                    if not ty.startswith("(list ") or unknown(ty):
+                        raise Unsupported(e, "* of a non-list")
+                    ety = ety or elt_of(ty)
+                    if elt_of(ty) != ety:
+                        raise Unsupported(e, "list display of mixed types")
+                    parts.append(t)
+                else:
+                    t, ty = self.expr(x, sc, want=ety)
+                    ety = ety or ty
+                    parts.append(f"[{self.coerce(t, ty, ety)}]")
+            return "(" + " ++ ".join(parts) + ")%list", f"(list {ety})"
         if isinstance(e, ast.Subscript):
             x, xt = self.expr(e.value, sc)
             if not xt.startswith("(list "):
@@ -693,6 +821,36 @@ class XTranslator(Translator):
             xs, xt = self.expr(e.args[0], sc)
             self.need(xt, "(list string)", e)
             return f"(py_join {self.expr(f.value, sc)[0]} {xs})", "string"
+        # d.get(k, default)
+        if isinstance(f, ast.Attribute) and f.attr == "get" and len(e.args) == 2 and not e.keywords:
+            n0 = len(sc.pending)
+            try:
+                x, xt = self.expr(f.value, sc)
+            except Unsupported:
+                del sc.pending[n0:]
+                x, xt = None, ""
+            if x is not None and dict_of(xt):
+                kt0, vt0 = dict_of(xt)
+                k, kt = self.expr(e.args[0], sc, want=None if kt0 == "_" else kt0)
+                d, dty = self.guarded(e.args[1], sc, want=None if vt0 == "_" else vt0)
+                vt = dty if vt0 == "_" else vt0
+                return f"(dict_get_or {U.eqb_name(kt)} {k} {x} {d})", vt
+            del sc.pending[n0:]
+        # d.copy(), d.keys(): values are immutable here, a copy is the value itself
+        if isinstance(f, ast.Attribute) and f.attr in ("copy", "keys") and not e.args and not e.keywords \
+                and not (f.attr == "keys" and isinstance(f.value, ast.Call) and isinstance(f.value.func, ast.Attribute)
+                         and any(k[1] == f"{f.value.func.attr}().keys()" for k in self.summaries)):
+            n0 = len(sc.pending)
+            try:
+                x, xt = self.expr(f.value, sc)
+            except Unsupported:
+                del sc.pending[n0:]
+                x, xt = None, ""
+            if x is not None and dict_of(xt) and not unknown(xt):
+                if f.attr == "copy":
+                    return x, xt
+                return f"(map fst {x})", f"(list {dict_of(xt)[0]})"
+            del sc.pending[n0:]
         # summarised idiom  E.index_participants().keys()
         if isinstance(f, ast.Attribute) and f.attr == "keys" and not e.args and not e.keywords \
                 and isinstance(f.value, ast.Call) and isinstance(f.value.func, ast.Attribute) \
@@ -819,6 +977,10 @@ class XTranslator(Translator):
                 if isinstance(node, (ast.Assign, ast.AnnAssign, ast.AugAssign)):
                     tg = node.targets if isinstance(node, ast.Assign) else [node.target]
                     for t in tg:
+                        if isinstance(t, ast.Subscript):
+                            if isinstance(t.value, ast.Name):
+                                add(t.value.id)
+                            continue
                         for x in ast.walk(t):
                             if isinstance(x, ast.Name):
                                 add(x.id)
@@ -833,7 +995,8 @@ class XTranslator(Translator):
     def has_effects(self, stmts, sc: XScope) -> bool:
         for s in stmts:
             for node in ast.walk(s):
-                if isinstance(node, (ast.Subscript, ast.Raise, ast.Return)):
+                if isinstance(node, (ast.Raise, ast.Return)) or (
+                        isinstance(node, ast.Subscript) and isinstance(node.ctx, ast.Load)):
                     return True
                 if isinstance(node, ast.Call):
                     f = node.func
@@ -863,6 +1026,9 @@ class XTranslator(Translator):
                 raise Unsupported(s, "code after return")
             if s.value is None:
                 raise Unsupported(s, "bare return")
+            if isinstance(s.value, ast.Call) and isinstance(s.value.func, ast.Name) and s.value.func.id in self.inline \
+                    and s.value.func.id not in sc.types:
+                return self.inline_tail(s.value, sc)
             t, ty = self.expr(s.value, sc, want=sc.ret)
             if sc.ret and not sc.ret.startswith("(option ") and ty.startswith("(option ") and (
                     unknown(ty) or ty == f"(option {sc.ret})"):
@@ -894,6 +1060,13 @@ class XTranslator(Translator):
             t, ty = self.expr(s.value, sc, want=old)
             binds = sc.take()
             sc.origins.pop(name, None)
+            sc.own_dicts.discard(name)
+            if dict_of(ty):
+                v = s.value
+                if isinstance(v, ast.Dict) or (isinstance(v, ast.Call) and isinstance(v.func, ast.Attribute) and v.func.attr == "copy"):
+                    sc.own_dicts.add(name)  # a new dict object, known under this name only
+                elif isinstance(v, ast.Name):
+                    raise Unsupported(s, "a second name for a dict (item assignment through one would change the other)")
             if old and old.startswith("(option ") and not ty.startswith("(option "):
                 # a variable that was None so far now holds an object
                 inner = old[len("(option "):-1]
@@ -908,11 +1081,32 @@ class XTranslator(Translator):
                     sc.origins[name] = sc.origins.pop(v)
                 sc.types[name] = ty
                 return wrap(binds, self.body(rest, sc))
-            if unknown(ty) and ty != "(option _)":
+            if unknown(ty) and ty not in ("(option _)", "(pydict _ _)"):
                 raise Unsupported(s, "cannot infer the type of the assigned value")
             sc.types[name] = ty
             k = self.body(rest, sc)
             return wrap(binds, f"let {safe(name)} := {t} in\n    {k}")
+        if isinstance(s, ast.Assign) and len(s.targets) == 1 and isinstance(s.targets[0], ast.Subscript) \
+                and isinstance(s.targets[0].value, ast.Name) and not isinstance(s.targets[0].slice, ast.Slice):
+            # d[k] = v on a local dict that no other name refers to
+            d = s.targets[0].value.id
+            dt = sc.types.get(d, "")
+            if not dict_of(dt) or d not in sc.own_dicts:
+                raise Unsupported(s, "item assignment other than to a local dict made by a display or .copy()")
+            if unknown(dt):  # made by `{}`: the first store tells the types
+                k, kt = self.expr(s.targets[0].slice, sc)
+                v, vt = self.expr(s.value, sc)
+                if unknown(kt) or unknown(vt):
+                    raise Unsupported(s, "cannot infer the type of the dict")
+                dt = sc.types[d] = f"(pydict {kt} {vt})"
+            else:
+                k, kt = self.expr(s.targets[0].slice, sc, want=dict_of(dt)[0])
+                self.need(kt, dict_of(dt)[0], s)
+                v, vt = self.expr(s.value, sc, want=dict_of(dt)[1])
+            binds = sc.take()
+            v = self.coerce(v, vt, dict_of(dt)[1])
+            rest_text = self.body(rest, sc)
+            return wrap(binds, f"let {safe(d)} := dict_set {self.U.eqb_name(kt)} {k} {v} {safe(d)} in\n    {rest_text}")
         if isinstance(s, ast.Assign) and len(s.targets) == 1 and isinstance(s.targets[0], ast.Tuple) \
                 and all(isinstance(x, ast.Name) for x in s.targets[0].elts):
             t, ty = self.expr(s.value, sc)
@@ -965,6 +1159,31 @@ class XTranslator(Translator):
         if isinstance(s, ast.Match):
             return self.match_stmt(s, rest, sc)
         raise Unsupported(s, "statement")
+
+    def inline_tail(self, call: ast.Call, sc: XScope) -> str:
+        """`return f(a, b)` with f a plain helper: f's body, its arguments let-bound (this keeps a
+        method that recurses through the helper structurally recursive)."""
+        fn = self.inline[call.func.id]
+        if call.keywords or len(call.args) != len(fn.args.args) or fn.args.kwonlyargs or fn.args.vararg \
+                or fn.args.kwarg or fn.args.defaults or fn.decorator_list:
+            raise Unsupported(call, "call of an inlined helper")
+        lets = []
+        inner = sc.clone()
+        inner.pending = []
+        inner.types = {}
+        inner.origins = {}
+        inner.own_dicts = set()
+        inner.self_ctor = None
+        inner.self_name = "self_"
+        for a, p in zip(call.args, fn.args.args):
+            t, ty = self.guarded(a, sc)
+            if p.annotation is not None:
+                want = self.U.coq_type(p.annotation)
+                if want != ty:
+                    raise Unsupported(call, f"argument of type {ty} for a {want}")
+            lets.append(f"let {safe(p.arg)} := {t} in")
+            inner.types[p.arg] = ty
+        return "\n    ".join(lets + [self.body(list(fn.body), inner)])
 
     def returns(self, stmts) -> bool:
         if not stmts:
@@ -1048,8 +1267,12 @@ class XTranslator(Translator):
             b = self.body(list(s.body) + [ast.Return(value=tup)], inner)
             for n in carried:
                 if inner.types[n] != sc.types[n]:
-                    raise Unsupported(s, f"variable {n} changes type in the loop")
+                    if not unknown(sc.types[n]):
+                        raise Unsupported(s, f"variable {n} changes type in the loop")
+                    sc.types[n] = inner.types[n]  # `{}` / `None` so far: the loop tells the type
                 sc.origins.pop(n, None)
+            for n in targets:  # Python keeps the loop variable after the loop; we do not
+                sc.types.pop(n, None)
             k = self.body(rest, sc)
             return wrap(binds, f"let {acc_pat} := fold_left (fun {acc_pat} {pat} => {b}) {src} {acc_val} in\n    {k}")
         # loop with effects: a local fix that threads the assigned variables (and the counter)
@@ -1074,6 +1297,8 @@ class XTranslator(Translator):
                 raise Unsupported(s, f"variable {n} changes type in the loop")
             sc.types[n] = t1
             sc.origins.pop(n, None)
+        for n in targets:  # Python keeps the loop variable after the loop; we do not
+            sc.types.pop(n, None)
         k = self.body(rest, sc)
         accpat = tup if len(names) == 1 else "'" + tup
         fx = f"ofold (fun {accpat} (x_ : {et}) => let {pat} := x_ in\n    {b}) {src} {tup}"
@@ -1520,6 +1745,20 @@ def gen_deparse(src: Path) -> str:
     out.append(U.emit_eqb("ex_expr"))
     out.append(U.emit_recognizers("ex_expr"))
     out.append(U.emit_projections("ex_assignment"))
+    out.append("(* Expression.variables(): dict[str, list[Tensor]] in insertion order; None = KeyError *)")
+    out.append(fe.emit_hierarchy_method("ex_expr", "variables", "(pydict string (list ex_expr))", "Expression_variables", partial=True))
+    tree = ast.parse((src / "tensora/expression/ast.py").read_text())
+    helpers = {n.name: n for n in tree.body if isinstance(n, ast.FunctionDef)}
+    if set(helpers) != {"merge_index_participants"}:
+        raise Unsupported(ast.Constant(sorted(helpers)), "unexpected module-level functions in expression/ast.py")
+    tr.inline = helpers
+    tr.oracle_nokey = "ord_set"
+    out.append("Section IndexParticipants.\n(* iteration order of the set {*left.keys(), *right.keys()}: unknown *)\n"
+               "Variable ord_set : list string -> list string.\n")
+    out.append(fe.emit_hierarchy_method("ex_expr", "index_participants", "(pydict string (pyset (string * Z)))",
+                                        "Expression_index_participants"))
+    out.append("End IndexParticipants.\n")
+    tr.inline, tr.oracle_nokey = {}, None
     out.append("Section Deparse.\n(* Python's str(float) (repr of a binary64) is not modelled: an abstract rendering *)\n"
                "Variable str_float : F -> string.\n")
     out.append(fe.emit_hierarchy_method("ex_expr", "deparse", "string", "Expression_deparse"))
@@ -1532,10 +1771,13 @@ def gen_deparse(src: Path) -> str:
 # target 4: desugar/ast.py, desugar/_desugar_expression.py
 # --------------------------------------------------------------------------------------------
 
-# ASSUMED summary of `e.index_participants().keys()` (expression/ast.py; dictionaries of sets, not
-# translated): the index names occurring in e.  Only ever used under set(...), i.e. as a set.
-SUMMARY_INDEX_NAMES = """(* ASSUMED summary of [e.index_participants().keys()] -- the index names occurring in e; the
-   source only uses it as [set(...)].  Guarded by the self-check (tools/props/_tie.py). *)
+# Summary of `e.index_participants().keys()`: the index names occurring in e.  The source only uses it
+# under set(...), i.e. as a set; that it is right as a set is PROVED from the regenerated
+# index_participants (gen/Deparse.v) in proofs/GenIndexParticipants_equiv.v (gen_index_names_summary).
+# What remains assumed: which duplicate-free list represents that set does not matter (the iteration
+# order of a set goes through the oracle anyway).
+SUMMARY_INDEX_NAMES = """(* summary of [e.index_participants().keys()] -- the index names occurring in e; the source only
+   uses it as [set(...)].  Right as a set: proofs/GenIndexParticipants_equiv.v, gen_index_names_summary. *)
 Fixpoint index_names (e : ex_expr) : list string :=
   match e with
   | ExInteger _ | ExFloat _ => nil
